@@ -14,23 +14,192 @@ theorem rd_eq_getElem {α} (a : Array α) (i : Nat) (d : α) (h : i < a.size) : 
 theorem rd_oob {α} (a : Array α) (i : Nat) (d : α) (h : a.size ≤ i) : rd a i d = d := by
   simp [rd, h]
 
+theorem shift_eq_div (c : Cfg) (p : Nat) : p >>> c.shift = p / c.nfine := by
+  simp [Cfg.nfine, Nat.shiftRight_eq_div_pow]
+
 /-- `lookup p = blockStart (p >> shift) + p % nfine`. -/
 theorem lookup_eq (c : Cfg) (s : State V) (p : Nat) :
     lookup c s p = blockStart c s (p >>> c.shift) + ((p % c.nfine : Nat) : Int) := by
-  sorry
+  rw [shift_eq_div]
+  unfold lookup blockStart
+  rw [shift_eq_div]
+  have h := Nat.div_add_mod p c.nfine
+  rw [Nat.mul_comm] at h
+  generalize p / c.nfine * c.nfine = a at *
+  generalize p % c.nfine = b at *
+  omega
 
 theorem covpix_lt (c : Cfg) (p : Nat) (h : p < c.npix) : p >>> c.shift < c.ncov := by
-  sorry
+  rw [shift_eq_div, Nat.div_lt_iff_lt_mul c.nfine_pos]
+  exact h
 
 theorem scatter_size {W} (g : V → W → V) (a : Array V) (upd : List (Nat × W)) :
     (scatter g a upd).size = a.size := by
-  sorry
+  unfold scatter
+  induction upd generalizing a with
+  | nil => rfl
+  | cons x xs ih => simp [List.foldl_cons, ih]
 
 /-- Sequential scatter, read back at cell `j`. -/
 theorem scatter_rd {W} (g : V → W → V) (a : Array V) (upd : List (Nat × W)) (j : Nat) (d : V)
     (hj : j < a.size) :
     rd (scatter g a upd) j d =
       upd.foldl (fun x iw => if iw.1 = j then g x iw.2 else x) (rd a j d) := by
-  sorry
+  unfold scatter
+  induction upd generalizing a with
+  | nil => rfl
+  | cons x xs ih =>
+    simp only [List.foldl_cons]
+    rw [ih _ (by simpa using hj)]
+    congr 1
+    simp only [rd, Array.getElem?_modify]
+    split <;> simp_all
+theorem covered_eq_true_iff (c : Cfg) (s : State V) (k : Nat) :
+    covered c s k = true ↔ ((c.nfine : Nat) : Int) ≤ blockStart c s k := by
+  simp [covered]
+
+theorem covered_eq_false_iff (c : Cfg) (s : State V) (k : Nat) :
+    covered c s k = false ↔ blockStart c s k < ((c.nfine : Nat) : Int) := by
+  simp [covered]
+
+/-- pure arithmetic: `a*n + r = a'*n + r'` with small remainders determines both parts. -/
+theorem mul_add_inj {n a r a' r' : Nat} (hr : r < n) (hr' : r' < n)
+    (h : a * n + r = a' * n + r') : a = a' ∧ r = r' := by
+  have hn : 0 < n := by omega
+  have h1 : (a * n + r) / n = a := by
+    rw [Nat.mul_comm, Nat.mul_add_div hn, Nat.div_eq_of_lt hr]; rfl
+  have h2 : (a' * n + r') / n = a' := by
+    rw [Nat.mul_comm, Nat.mul_add_div hn, Nat.div_eq_of_lt hr']; rfl
+  have : a = a' := by rw [← h1, ← h2, h]
+  subst this
+  exact ⟨rfl, by omega⟩
+
+section
+variable [DecidableEq V] {c : Cfg} {vc : VCfg V} {s : State V}
+
+theorem Inv.nblk_succ (h : Inv c vc s) : nblk c s + 1 = s.sp.size / c.nfine := by
+  have hsp := h.2.1
+  have hn := c.nfine_pos
+  unfold nblk at *
+  generalize c.nfine = n at *
+  generalize hq : s.sp.size / n = q at *
+  cases q with
+  | zero =>
+    simp at hsp
+    rw [hsp, Nat.div_self hn] at hq
+    omega
+  | succ q => omega
+
+theorem Inv.size_eq (h : Inv c vc s) : s.sp.size = (nblk c s + 1) * c.nfine := h.2.1
+
+theorem Inv.nfine_le_size (h : Inv c vc s) : c.nfine ≤ s.sp.size := by
+  rw [h.size_eq, Nat.succ_mul]; omega
+
+/-- a covered coverage pixel owns one of the data blocks `1..nblk`. -/
+theorem Inv.covered_blk (h : Inv c vc s) {k : Nat} (hk : k < c.ncov)
+    (hc : covered c s k = true) :
+    ∃ b, b < nblk c s ∧ blockStart c s k = (((b + 1) * c.nfine : Nat) : Int) := by
+  have hsz := h.size_eq
+  obtain ⟨_, _, _, hblk, _, _⟩ := h
+  rw [covered_eq_true_iff] at hc
+  have hn := c.nfine_pos
+  rcases hblk k hk with h0 | ⟨h1, h2, h3⟩
+  · omega
+  · generalize blockStart c s k = bs at *
+    obtain ⟨m, rfl⟩ := Int.eq_ofNat_of_zero_le (a := bs) (by omega)
+    generalize c.nfine = n at *
+    have h2' : m % n = 0 := by exact_mod_cast h2
+    have h1' : n ≤ m := by exact_mod_cast h1
+    have h3' : m < s.sp.size := by exact_mod_cast h3
+    have hm := Nat.div_add_mod m n
+    rw [h2', Nat.mul_comm] at hm
+    have hq1 : 1 ≤ m / n := (Nat.le_div_iff_mul_le hn).2 (by omega)
+    have hq2 : m / n < nblk c s + 1 := by
+      rw [Nat.div_lt_iff_lt_mul hn, ← hsz]; exact h3'
+    refine ⟨m / n - 1, by omega, ?_⟩
+    have : m / n - 1 + 1 = m / n := by omega
+    rw [this]
+    omega
+
+theorem Inv.uncovered_bs (h : Inv c vc s) {k : Nat} (hk : k < c.ncov)
+    (hc : covered c s k = false) : blockStart c s k = 0 := by
+  obtain ⟨_, _, _, hblk, _, _⟩ := h
+  rw [covered_eq_false_iff] at hc
+  rcases hblk k hk with h0 | ⟨h1, _, _⟩
+  · exact h0
+  · omega
+
+theorem Inv.lookup_covered (h : Inv c vc s) {p : Nat} (hp : p < c.npix)
+    (hc : covered c s (p >>> c.shift) = true) :
+    ∃ b, b < nblk c s ∧
+      blockStart c s (p >>> c.shift) = (((b + 1) * c.nfine : Nat) : Int) ∧
+      lookup c s p = (((b + 1) * c.nfine + p % c.nfine : Nat) : Int) := by
+  obtain ⟨b, hb, hbs⟩ := h.covered_blk (covpix_lt c p hp) hc
+  refine ⟨b, hb, hbs, ?_⟩
+  rw [lookup_eq, hbs]
+  omega
+
+theorem Inv.lookup_uncovered (h : Inv c vc s) {p : Nat} (hp : p < c.npix)
+    (hc : covered c s (p >>> c.shift) = false) :
+    lookup c s p = ((p % c.nfine : Nat) : Int) := by
+  rw [lookup_eq, h.uncovered_bs (covpix_lt c p hp) hc]
+  omega
+
+/-- block arithmetic: cell `(b+1)*n + r` of a data block lies in `[n, (nblk+1)*n)`. -/
+theorem blk_cell_range {n b r m : Nat} (hb : b < m) (hr : r < n) :
+    n ≤ (b + 1) * n + r ∧ (b + 1) * n + r < (m + 1) * n := by
+  have h1 : (b + 1) * n = b * n + n := Nat.succ_mul b n
+  have h2 : (b + 2) * n ≤ (m + 1) * n := Nat.mul_le_mul_right n (by omega)
+  have h3 : (b + 2) * n = b * n + n + n := by rw [Nat.add_mul]; omega
+  omega
+
+theorem Inv.idxOf_covered (h : Inv c vc s) {p : Nat} (hp : p < c.npix)
+    (hc : covered c s (p >>> c.shift) = true) :
+    c.nfine ≤ idxOf c s p ∧ idxOf c s p < s.sp.size ∧ lookup c s p = ((idxOf c s p : Nat) : Int) := by
+  obtain ⟨b, hb, _, hl⟩ := h.lookup_covered hp hc
+  have := blk_cell_range (n := c.nfine) (r := p % c.nfine) hb (Nat.mod_lt _ c.nfine_pos)
+  have hidx : idxOf c s p = (b + 1) * c.nfine + p % c.nfine := by
+    unfold idxOf; rw [hl]; exact Int.toNat_natCast _
+  rw [hidx, h.size_eq]
+  exact ⟨this.1, this.2, hl⟩
+
+theorem Inv.idxOf_uncovered (h : Inv c vc s) {p : Nat} (hp : p < c.npix)
+    (hc : covered c s (p >>> c.shift) = false) :
+    idxOf c s p = p % c.nfine ∧ idxOf c s p < c.nfine := by
+  have hidx : idxOf c s p = p % c.nfine := by
+    unfold idxOf; rw [h.lookup_uncovered hp hc]; exact Int.toNat_natCast _
+  rw [hidx]
+  exact ⟨rfl, Nat.mod_lt _ c.nfine_pos⟩
+
+theorem Inv.lookup_inj (h : Inv c vc s) {p q : Nat}
+    (hp : p < c.npix) (hq : q < c.npix) (hc : covered c s (p >>> c.shift) = true)
+    (he : lookup c s p = lookup c s q) : p = q := by
+  obtain ⟨b, hb, hbs, hl⟩ := h.lookup_covered hp hc
+  have hn := c.nfine_pos
+  have hrp := Nat.mod_lt p hn
+  have hrq := Nat.mod_lt q hn
+  cases hcq : covered c s (q >>> c.shift) with
+  | false =>
+    have hq' := h.lookup_uncovered hq hcq
+    have := (blk_cell_range (n := c.nfine) (r := p % c.nfine) hb hrp).1
+    omega
+  | true =>
+    obtain ⟨b', hb', hbs', hl'⟩ := h.lookup_covered hq hcq
+    have he' : (b + 1) * c.nfine + p % c.nfine = (b' + 1) * c.nfine + q % c.nfine := by omega
+    obtain ⟨hbb, hr⟩ := mul_add_inj hrp hrq he'
+    have hbseq : blockStart c s (p >>> c.shift) = blockStart c s (q >>> c.shift) := by
+      rw [hbs, hbs', hbb]
+    have hk := h.2.2.2.2.1 _ (covpix_lt c p hp) _ (covpix_lt c q hq)
+      ((covered_eq_true_iff c s _).1 hc) hbseq
+    rw [shift_eq_div, shift_eq_div] at hk
+    rw [← Nat.div_add_mod p c.nfine, ← Nat.div_add_mod q c.nfine, hk, hr]
+
+theorem Inv.abs_uncovered (h : Inv c vc s) {p : Nat} (hp : p < c.npix)
+    (hc : covered c s (p >>> c.shift) = false) : abs c vc s p = vc.sentinel := by
+  have := h.idxOf_uncovered hp hc
+  unfold abs rd
+  change (s.sp[idxOf c s p]?).getD _ = _
+  rw [h.2.2.1 _ this.2]; rfl
+end
 
 end HS
